@@ -247,7 +247,9 @@ func Run(r *core.Run) {
 			names = append(names, spellings(a)[len(spellings(a))-1])
 		}
 	}
-	multi := []string{"", "a", "aa", "ab", "a\\u0000", "b", "\\ud83d\\ude00", "\\ufb33", "\\ufb33a", "\\ud83d\\ude00a", "€", "é", "1", "10", "2", "A", "Aa"}
+	multi := []string{"", "a", "aa", "ab", "a\\u0000", "b", "\\ud83d\\ude00", "\\ufb33", "\\ufb33a", "\\ud83d\\ude00a", "€", "é", "1", "10", "2", "A", "Aa",
+		// supplementary characters that share their high surrogate (the low one decides), the neighbouring blocks, and tails behind them
+		"\\ud83d\\ude01", "\\ud83d\\ude01a", "\\ud83d\\ude00b", "\\ud83d\\udc00", "\\ud83c\\udfff", "\\ud83e\\udc00"}
 	objs := func(ns []string, k int) [][]string {
 		var out [][]string
 		var rec func(start int, cur []string)
